@@ -372,6 +372,36 @@ func checkQuantifierAbsent(r *Run, prog *Program, a *Anchors, pfx string) {
 						}
 					}
 				}
+				if !ok && e.IsNil() && bodyCalls == 0 {
+					// written another way (`!(Op == ANY)`, a table, …): the operator has two values (operator-has-spec), the
+					// result is judged for each of them
+					ok = true
+					for _, oc := range prog.enumConsts(prog.grammarType("CollectionOperator")) {
+						ps2 := NewPathSim(prog)
+						ps2.Inline = ps.Inline
+						ps2.Model = ps.Model
+						oc := oc
+						ps2.Seed = func(st *pstate) { st.eqc[loadField(pExpr, "Op").Key()] = constKey(oc) }
+						n2 := 0
+						for _, sm2 := range ps2.Run(fn) {
+							if sm2.Panic != nil || len(sm2.Results) != 2 {
+								ok = false
+								continue
+							}
+							n2++
+							bv, known := sm2.Results[0].BoolConst()
+							if !known {
+								bv, known = evalBool(sm2.St, sm2.Results[0])
+							}
+							if !known || bv != (oc.Name() == "CollectionOpAll") || !sm2.Results[1].IsNil() || len(sm2.callsTo(a.Dispatch)) != 0 {
+								ok = false
+							}
+						}
+						if n2 == 0 {
+							ok = false
+						}
+					}
+				}
 				why = "an absent collection must give (Op == ALL, nil) — all true, any false — without evaluating the body; got (" + b.Key() + ", " + e.Key() + "), body evaluations=" + fmt.Sprint(bodyCalls)
 			} else {
 				bv, okc := b.BoolConst()
